@@ -22,44 +22,137 @@ Proof.
   - intros H. exists t. split; [exact H|]. apply bytes_eqb_eq. reflexivity.
 Qed.
 
-Lemma rust_lower_ascii s : ascii_bytes s = true -> rust_lower s = map lower_ascii s.
-Proof.
-  induction s as [|c r IH]; intros H; [reflexivity|].
-  cbn [ascii_bytes forallb] in H. apply andb_true_iff in H. destruct H as [Hc Hr].
-  cbn [rust_lower map]. unfold is_ascii in Hc. apply N.ltb_lt in Hc.
-  destruct (N.eqb_spec c 195) as [E|E]; [lia|]. f_equal. apply IH. exact Hr.
-Qed.
-
 Lemma table_name_last nm : table_name nm =
-  match last_ident nm with Some i => Some (if quoted i then text i else rust_lower (text i)) | None => None end.
+  match last_ident nm with
+  | Some i => Some (clip63 (if quoted i then text i else rust_lower (text i)))
+  | None => None
+  end.
 Proof. unfold table_name, last_ident. destruct (rev nm); reflexivity. Qed.
 
-Lemma firstn_short {A} (l : list A) n : (length l <= n)%nat -> firstn n l = l.
-Proof. intros H. apply firstn_all2. exact H. Qed.
+(** ** pgcat's back-off to a character boundary = PostgreSQL's character walk *)
 
-Lemma resolve_is_table_name i : ascii_ident i = true -> short_ident i = true ->
-  pg_resolve i = (if quoted i then text i else rust_lower (text i)).
+Lemma clen_pos c : 1 <= clen c.
+Proof. unfold clen. repeat match goal with |- context [if ?b then _ else _] => destruct b end; lia. Qed.
+
+Lemma is_cont_0 : is_cont 0%N = false.
+Proof. reflexivity. Qed.
+
+Lemma backoff_all_cont n s : (forall k, 1 <= k <= n -> is_cont (@nth byte k s 0%N) = true) -> backoff n s = 0.
 Proof.
-  unfold ascii_ident, short_ident, pg_resolve, pg_fold. intros Ha Hs. apply Nat.leb_le in Hs.
-  rewrite firstn_short.
-  - destruct (quoted i); [reflexivity|]. symmetry. apply rust_lower_ascii. exact Ha.
-  - destruct (quoted i); [exact Hs|]. rewrite map_length. exact Hs.
+  induction n as [|n IH]; intros H; [reflexivity|].
+  cbn [backoff]. rewrite (H (S n)) by lia. apply IH. intros k Hk. apply H. lia.
+Qed.
+
+Lemma backoff_shift pre rest j :
+  match rest with [] => True | h :: _ => is_cont h = false end ->
+  backoff (length pre + j) (pre ++ rest) = length pre + backoff j rest.
+Proof.
+  intros Hh. induction j as [|j IH].
+  - rewrite Nat.add_0_r. cbn [backoff]. rewrite Nat.add_0_r.
+    destruct (length pre) as [|k] eqn:E; [reflexivity|].
+    cbn [backoff]. rewrite <- E. rewrite app_nth2 by lia. rewrite Nat.sub_diag.
+    destruct rest as [|h r]; cbn [nth]; [rewrite is_cont_0; reflexivity|rewrite Hh; reflexivity].
+  - rewrite Nat.add_succ_r. cbn [backoff]. rewrite <- Nat.add_succ_r.
+    rewrite app_nth2 by lia. replace (length pre + S j - length pre) with (S j) by lia.
+    destruct (is_cont (@nth byte (S j) rest 0%N)); [exact IH|reflexivity].
+Qed.
+
+Lemma utf8_head s : utf8 s -> match s with [] => True | h :: _ => is_cont h = false end.
+Proof. destruct 1; [exact I|assumption]. Qed.
+
+Lemma walk_backoff s : utf8 s -> forall fuel n, n < fuel -> n < length s -> walk fuel n s = backoff n s.
+Proof.
+  induction 1 as [|c conts rest Hc Hl Hconts Hrest IH]; intros fuel n Hf Hn; [cbn in Hn; lia|].
+  destruct fuel as [|f]; [lia|]. cbn [walk].
+  pose proof (clen_pos c) as Hp.
+  assert (Hlen: length (c :: conts) = clen c) by (cbn [length]; lia).
+  change (c :: conts ++ rest) with ((c :: conts) ++ rest) in *.
+  destruct (Nat.ltb_spec n (clen c)) as [Hlt|Hge].
+  - symmetry. apply backoff_all_cont. intros k Hk.
+    rewrite app_nth1 by lia. destruct k as [|k]; [lia|]. cbn [nth].
+    rewrite Forall_forall in Hconts. apply Hconts. apply nth_In. lia.
+  - rewrite app_length, Hlen in Hn.
+    assert (Hh: match rest with [] => True | h :: _ => is_cont h = false end) by (apply utf8_head; exact Hrest).
+    destruct (Nat.eqb_spec n (clen c)) as [->|Hne].
+    + rewrite <- Hlen at 2. rewrite <- (Nat.add_0_r (length (c :: conts))).
+      rewrite backoff_shift by exact Hh. cbn [backoff]. lia.
+    + assert (E: skipn (clen c) ((c :: conts) ++ rest) = rest).
+      { rewrite <- Hlen. rewrite skipn_app, Nat.sub_diag, skipn_all. reflexivity. }
+      rewrite E. rewrite IH by lia.
+      replace n with (length (c :: conts) + (n - clen c)) at 2 by lia.
+      rewrite backoff_shift by exact Hh. lia.
+Qed.
+
+Lemma backoff_len s : backoff (length s) s = length s.
+Proof.
+  destruct (length s) as [|k] eqn:E; [reflexivity|]. cbn [backoff].
+  rewrite nth_overflow by lia. rewrite is_cont_0. reflexivity.
+Qed.
+
+Lemma clip_is_truncate s : utf8 s -> pg_truncate s = clip63 s.
+Proof.
+  intros H. unfold pg_truncate, clip63. destruct (Nat.leb_spec (length s) 63) as [Hle|Hgt].
+  - rewrite Nat.min_l by exact Hle. rewrite backoff_len, firstn_all. reflexivity.
+  - rewrite Nat.min_r by lia. rewrite (walk_backoff s H 64 63) by lia. reflexivity.
+Qed.
+
+Lemma lower_cont c : is_cont (lower_ascii c) = is_cont c.
+Proof.
+  unfold lower_ascii, is_upper, is_cont.
+  destruct (N.leb_spec 65 c), (N.leb_spec c 90); cbn [andb]; try reflexivity.
+  destruct (N.leb_spec 128 (c + 32)), (N.leb_spec 128 c); cbn [andb]; try reflexivity; try lia.
+Qed.
+
+Lemma lower_clen c : clen (lower_ascii c) = clen c.
+Proof.
+  unfold lower_ascii, is_upper.
+  destruct (N.leb_spec 65 c), (N.leb_spec c 90); cbn [andb]; try reflexivity.
+  unfold clen. destruct (N.ltb_spec (c + 32) 128), (N.ltb_spec c 128); try reflexivity; lia.
+Qed.
+
+Lemma utf8_fold s : utf8 s -> utf8 (map lower_ascii s).
+Proof.
+  induction 1 as [|c conts rest Hc Hl Hconts Hrest IH]; [constructor|].
+  cbn [map]. rewrite map_app. constructor.
+  - rewrite lower_cont. exact Hc.
+  - rewrite map_length, lower_clen. exact Hl.
+  - rewrite Forall_forall in *. intros b Hb. apply in_map_iff in Hb. destruct Hb as (x & <- & Hx).
+    rewrite lower_cont. apply Hconts. exact Hx.
+  - exact IH.
+Qed.
+
+Lemma utf8b_sound fuel : forall s, utf8b fuel s = true -> utf8 s.
+Proof.
+  induction fuel as [|f IH]; intros [|c r] H; try constructor; [discriminate|].
+  cbn [utf8b] in H. repeat (apply andb_true_iff in H; destruct H as [H ?]).
+  rewrite <- (firstn_skipn (clen c - 1) r). constructor.
+  - apply negb_true_iff. exact H.
+  - apply firstn_length_le. apply Nat.leb_le. assumption.
+  - apply Forall_forall. intros b Hb. match goal with Hf: forallb _ _ = true |- _ => rewrite forallb_forall in Hf; apply Hf; exact Hb end.
+  - apply IH. assumption.
+Qed.
+
+(** what pgcat compares with the list is what PostgreSQL resolves the identifier to *)
+Lemma resolve_is_table_name i : utf8 (text i) ->
+  pg_resolve i = clip63 (if quoted i then text i else rust_lower (text i)).
+Proof.
+  intros H. unfold pg_resolve, pg_fold, rust_lower. apply clip_is_truncate.
+  destruct (quoted i); [exact H|apply utf8_fold; exact H].
 Qed.
 
 Lemma name_complete blocked nm i :
-  last_ident nm = Some i -> ascii_ident i = true -> short_ident i = true ->
+  last_ident nm = Some i -> utf8 (text i) ->
   In (pg_resolve i) blocked -> matches blocked nm = true.
 Proof.
-  intros Hl Ha Hs Hin. unfold matches. rewrite table_name_last, Hl.
+  intros Hl Hu Hin. unfold matches. rewrite table_name_last, Hl.
   apply mem_In. rewrite <- resolve_is_table_name by assumption. exact Hin.
 Qed.
 
 Lemma name_sound blocked nm : matches blocked nm = true ->
-  exists i, last_ident nm = Some i /\
-            (ascii_ident i = true -> short_ident i = true -> In (pg_resolve i) blocked).
+  exists i, last_ident nm = Some i /\ (utf8 (text i) -> In (pg_resolve i) blocked).
 Proof.
   unfold matches. rewrite table_name_last. destruct (last_ident nm) as [i|]; [|discriminate].
-  intros H. exists i. split; [reflexivity|]. intros Ha Hs.
+  intros H. exists i. split; [reflexivity|]. intros Hu.
   rewrite resolve_is_table_name by assumption. apply mem_In. exact H.
 Qed.
 
@@ -334,28 +427,23 @@ Lemma enc_rows rows : enc (map (fun row => (68%N, i16be (zlen row) ++ concat (ma
                       = concat (map data_row_nullable rows).
 Proof. induction rows as [|r rows IH]; [reflexivity|]. unfold enc in *. cbn [map concat]. rewrite IH. reflexivity. Qed.
 
-Lemma rule_reply_frames user db r cols :
-  map_opt schema_col (r_schema r) = Some cols ->
-  rule_reply user db r = Some (enc (rule_frames cols (rule_rows user db r))).
+Lemma rule_reply_frames user db r :
+  rule_reply user db r = enc (rule_frames (map schema_col (r_schema r)) (rule_rows user db r)).
 Proof.
-  intros E. unfold rule_reply. rewrite E. f_equal. unfold rule_frames.
+  unfold rule_reply, rule_frames.
   change (?x :: ?l ++ ?t) with ([x] ++ l ++ t). rewrite !enc_app, enc_rows.
   unfold enc. cbn [map concat fst snd]. rewrite !app_nil_r. reflexivity.
 Qed.
 
-Definition expected_of (user db : bytes) (r : rule) : list bmsg :=
-  match map_opt schema_col (r_schema r) with
-  | Some cols => expected_rule user db r cols
-  | None => []
-  end.
+Definition expected_of (user db : bytes) (r : rule) : list bmsg := expected_rule user db r.
 
 Lemma rule_frames_ok user db r : wf_rule user db r ->
-  exists fs, rule_reply user db r = Some (enc fs) /\ Forall fits fs /\
+  exists fs, rule_reply user db r = enc fs /\ Forall fits fs /\
              map_opt rd_msg fs = Some (expected_of user db r).
 Proof.
-  intros [(cols & Ec & Hn & Hnul & Hsz) Hrows].
-  exists (rule_frames cols (rule_rows user db r)). split; [apply rule_reply_frames; exact Ec|].
-  unfold expected_of. rewrite Ec. unfold rule_frames, expected_rule.
+  intros [(Hn & Hnul & Hsz) Hrows]. set (cols := map schema_col (r_schema r)) in *.
+  exists (rule_frames cols (rule_rows user db r)). split; [apply rule_reply_frames|].
+  unfold expected_of, expected_rule. fold cols. unfold rule_frames.
   set (rows := rule_rows user db r) in *.
   split.
   - constructor.
@@ -378,20 +466,20 @@ Definition matched_rules (rules : list rule) (stmts : list bytes) : list rule :=
   flat_map (fun q => filter (rule_matches q) rules) stmts.
 
 Lemma intercept_body_matched user db rules stmts :
-  intercept_body user db rules stmts = concat_opt (map (rule_reply user db) (matched_rules rules stmts)).
+  intercept_body user db rules stmts = concat (map (rule_reply user db) (matched_rules rules stmts)).
 Proof.
   unfold intercept_body, matched_rules. f_equal.
   induction stmts as [|q r IH]; [reflexivity|]. cbn [flat_map]. rewrite map_app, IH. reflexivity.
 Qed.
 
 Lemma body_frames user db ms : Forall (wf_rule user db) ms ->
-  exists fs, concat_opt (map (rule_reply user db) ms) = Some (enc fs) /\ Forall fits fs /\
+  exists fs, concat (map (rule_reply user db) ms) = enc fs /\ Forall fits fs /\
              map_opt rd_msg fs = Some (flat_map (expected_of user db) ms).
 Proof.
   induction 1 as [|r ms Hr Hms IH].
   - exists []. repeat split; constructor.
   - destruct IH as (fs & E & Hf & Hm). destruct (rule_frames_ok user db r Hr) as (f1 & E1 & Hf1 & Hm1).
-    exists (f1 ++ fs). cbn [map concat_opt flat_map]. rewrite E1, E. rewrite enc_app.
+    exists (f1 ++ fs). cbn [map concat flat_map]. rewrite E1, E. rewrite enc_app.
     split; [reflexivity|]. split; [apply Forall_app; split; assumption|]. apply map_opt_app; assumption.
 Qed.
 
@@ -409,7 +497,7 @@ Proof.
   { destruct (enc fs) as [|x r]; [discriminate|]. injection H as <-. split; [reflexivity|discriminate]. }
   destruct Hrep as [-> Hne]. clear H.
   split.
-  - intros Hnil. rewrite Hnil in E. cbn in E. injection E as E. apply Hne. symmetry. exact E.
+  - intros Hnil. rewrite Hnil in E. cbn in E. apply Hne. symmetry. exact E.
   - rewrite rfq_is_frame. change (frame 90%N [73%N]) with (enc [(90%N, [73%N])] ).
     + rewrite <- enc_app. apply read_reply_enc.
       * apply Forall_app. split; [exact Hf|]. constructor; [|constructor]. unfold fits. vm_compute. reflexivity.
@@ -437,15 +525,22 @@ Definition pbuf (c : cfg) (m : msg) : verdict :=
 Definition ok_step (c : cfg) (s : state) (m : msg) (s' : state) (ev : list event) : Prop :=
   (forall it, In it (forwarded ev) ->
       (it = FMsg m /\ bad_msg c m = false)
-      \/ (exists m', it = FMsg m' /\ In m' (ebuf s) /\ is_allow (pout s) = true)
-      \/ (exists p, it = FParse p /\ ps_on c = true)) /\
-  ( (ebuf s' = ebuf s /\ pout s' = pout s)
-    \/ (ebuf s' = ebuf s ++ [m] /\ (if is_allow (pout s) then pout s' = pbuf c m else pout s' = pout s))
-    \/ (ebuf s' = [] /\ pout s' = Allow)
-    \/ (ebuf s' = [] /\ pout s' = pout s /\ is_allow (pout s) = true) ).
+      \/ (exists m', it = FMsg m' /\ In m' (bmsgs s) /\ is_allow (pout s) = true)
+      \/ (exists m' p, it = FParse p /\ In (m', Some p) (ebuf s) /\ is_allow (pout s) = true)) /\
+  ( (bmsgs s' = bmsgs s /\ pout s' = pout s)
+    \/ (bmsgs s' = bmsgs s ++ [m] /\ (if is_allow (pout s) then pout s' = pbuf c m else pout s' = pout s))
+    \/ (bmsgs s' = [] /\ pout s' = Allow)
+    \/ (bmsgs s' = [] /\ pout s' = pout s /\ is_allow (pout s) = true) ).
 
 Lemma is_allow_true v : is_allow v = true -> v = Allow.
 Proof. destruct v; [reflexivity|discriminate|discriminate]. Qed.
+
+Lemma bmsgs_push s b : bmsgs (push s b) = bmsgs s ++ [fst b].
+Proof. unfold bmsgs, push. cbn [ebuf]. rewrite map_app. reflexivity. Qed.
+
+Ltac pushed Ea :=
+  right; left; rewrite bmsgs_push; cbn [fst push set_ps set_rej set_pout pout]; split; [reflexivity|];
+  destruct (is_allow (pout _)) eqn:Ea; [try (apply is_allow_true; exact Ea)|try reflexivity].
 
 Lemma buffer_msg_ok c s m s' ev : buffer_msg c s m = (s', ev) ->
   match m with MQ _ _ _ _ _ | MS _ _ _ | MH _ _ => False | _ => True end -> ok_step c s m s' ev.
@@ -457,18 +552,16 @@ Proof.
       injection H as <- <-; cbn; intros it [].
   - destruct m; try destruct Hk; cbn [buffer_msg] in H.
     + (* MP *)
-      right; left. unfold pbuf, eff.
+      injection H as <- <-. right; left. rewrite bmsgs_push. cbn [fst]. unfold pbuf. cbn [bad_msg]. unfold eff.
       destruct (parser_on c && parsed) eqn:Epp; destruct (is_allow (pout s)) eqn:Ea; destruct (ps_on c);
-        injection H as <- <-; cbn; split; try reflexivity; try (rewrite Ea; reflexivity);
-        try (rewrite Ea; apply is_allow_true in Ea; exact Ea); try (apply is_allow_true; exact Ea).
-    + destruct (ps_on c); [destruct (lookup name (ps s))|]; injection H as <- <-;
-        try (right; left; cbn; split; [reflexivity|]; destruct (is_allow (pout s)) eqn:Ea; [apply is_allow_true; exact Ea|reflexivity]).
-      left. cbn. split; reflexivity.
-    + destruct (ps_on c && is_stmt); [destruct (lookup name (ps s))|]; injection H as <- <-;
-        try (right; left; cbn; split; [reflexivity|]; destruct (is_allow (pout s)) eqn:Ea; [apply is_allow_true; exact Ea|reflexivity]).
-      left. cbn. split; reflexivity.
-    + injection H as <- <-. right; left; cbn; split; [reflexivity|]; destruct (is_allow (pout s)) eqn:Ea; [apply is_allow_true; exact Ea|reflexivity].
-    + injection H as <- <-. right; left; cbn; split; [reflexivity|]; destruct (is_allow (pout s)) eqn:Ea; [apply is_allow_true; exact Ea|reflexivity].
+        repeat match goal with |- context [if negb ?b then _ else _] => destruct (negb b) end;
+        cbn; rewrite ?Ea; split; try reflexivity; try (apply is_allow_true; exact Ea).
+    + destruct (ps_on c); [destruct (lookup name (ps s))|]; injection H as <- <-; try (pushed Ea).
+      left. split; reflexivity.
+    + destruct (ps_on c && is_stmt); [destruct (lookup name (ps s))|]; injection H as <- <-; try (pushed Ea).
+      left. split; reflexivity.
+    + injection H as <- <-. pushed Ea.
+    + destruct (ps_on c && is_stmt && negb (Nat.eqb name 0)); injection H as <- <-; pushed Ea.
 Qed.
 
 Lemma forwarded_app a b : forwarded (a ++ b) = forwarded a ++ forwarded b.
@@ -476,47 +569,40 @@ Proof.
   induction a as [|e a IH]; [reflexivity|]. destruct e; cbn [app forwarded]; rewrite ?IH, <- ?app_assoc; reflexivity.
 Qed.
 
-Lemma drain_spec c buf : forall pm sv early acc early' acc' pm' sv' ok,
-  drain c buf pm sv early acc = (early', acc', pm', sv', ok) ->
-  (forall it, In it acc' -> In it acc \/ exists m, it = FMsg m /\ In m buf) /\
-  (forall it, In it (forwarded early') -> In it (forwarded early) \/ (exists p, it = FParse p /\ ps_on c = true)).
+Lemma drain_spec c buf : forall sv early acc early' acc' sv',
+  drain c buf sv early acc = (early', acc', sv') ->
+  (forall it, In it acc' -> In it acc \/ exists m, it = FMsg m /\ In m (map fst buf)) /\
+  (forall it, In it (forwarded early') -> In it (forwarded early) \/ (exists m p, it = FParse p /\ In (m, Some p) buf)).
 Proof.
-  induction buf as [|m r IH]; intros pm sv early acc early' acc' pm' sv' ok H.
-  - cbn [drain] in H. injection H as <- <- <- <- <-. split; intros it Hi; left; exact Hi.
-  - assert (Hgen: forall pm2 sv2 early2 acc2,
-               drain c r pm2 sv2 early2 acc2 = (early', acc', pm', sv', ok) ->
+  induction buf as [|[m meta] r IH]; intros sv early acc early' acc' sv' H.
+  - cbn [drain] in H. injection H as <- <- <-. split; intros it Hi; left; exact Hi.
+  - assert (Hgen: forall sv2 early2 acc2,
+               drain c r sv2 early2 acc2 = (early', acc', sv') ->
                (forall it, In it acc2 -> In it acc \/ it = FMsg m) ->
-               (forall it, In it (forwarded early2) -> In it (forwarded early) \/ (exists p, it = FParse p /\ ps_on c = true)) ->
-               (forall it, In it acc' -> In it acc \/ exists m0, it = FMsg m0 /\ In m0 (m :: r)) /\
-               (forall it, In it (forwarded early') -> In it (forwarded early) \/ (exists p, it = FParse p /\ ps_on c = true))).
-    { intros pm2 sv2 early2 acc2 D Ha He. destruct (IH _ _ _ _ _ _ _ _ _ D) as [A B]. split.
+               (forall it, In it (forwarded early2) -> In it (forwarded early) \/ (exists p, it = FParse p /\ meta = Some p)) ->
+               (forall it, In it acc' -> In it acc \/ exists m0, it = FMsg m0 /\ In m0 (map fst ((m, meta) :: r))) /\
+               (forall it, In it (forwarded early') -> In it (forwarded early) \/ (exists m0 p, it = FParse p /\ In (m0, Some p) ((m, meta) :: r)))).
+    { intros sv2 early2 acc2 D Ha He. destruct (IH _ _ _ _ _ _ D) as [A B]. split.
       - intros it Hi. destruct (A it Hi) as [Hi'|(m0 & -> & Hm0)].
         + destruct (Ha it Hi') as [?| ->]; [left; assumption|right; exists m; split; [reflexivity|left; reflexivity]].
         + right. exists m0. split; [reflexivity|right; exact Hm0].
-      - intros it Hi. destruct (B it Hi) as [Hi'|Hp]; [apply He; exact Hi'|right; exact Hp]. }
+      - intros it Hi. destruct (B it Hi) as [Hi'|(m0 & p & -> & Hp)].
+        + destruct (He it Hi') as [?|(p & -> & ->)]; [left; assumption|]. right. exists m, p. split; [reflexivity|left; reflexivity].
+        + right. exists m0, p. split; [reflexivity|right; exact Hp]. }
     assert (Hacc1: forall it, In it (acc ++ [FMsg m]) -> In it acc \/ it = FMsg m).
     { intros it Hi. apply in_app_or in Hi. destruct Hi as [?|[<-|[]]]; [left; assumption|right; reflexivity]. }
     assert (Hacc0: forall it, In it acc -> In it acc \/ it = FMsg m) by (intros; left; assumption).
-    assert (He0: forall it, In it (forwarded early) -> In it (forwarded early) \/ (exists p, it = FParse p /\ ps_on c = true))
+    assert (He0: forall it, In it (forwarded early) -> In it (forwarded early) \/ (exists p, it = FParse p /\ meta = Some p))
       by (intros; left; assumption).
+    assert (He1: forall p, meta = Some p -> forall it, In it (forwarded (early ++ [EvFwd [FParse p]])) ->
+                 In it (forwarded early) \/ (exists p0, it = FParse p0 /\ meta = Some p0)).
+    { intros p Hm it Hi. rewrite forwarded_app in Hi. apply in_app_or in Hi. destruct Hi as [?|Hi]; [left; assumption|].
+      cbn in Hi. destruct Hi as [<-|[]]. right. exists p. split; [reflexivity|exact Hm]. }
     cbn [drain] in H. destruct m.
     + eapply Hgen; eauto.
-    + destruct (ps_on c) eqn:Eps; [destruct (has key sv)|]; eapply Hgen; eauto.
-    + destruct (ps_on c) eqn:Eps.
-      * destruct (lookup name pm) as [p|].
-        -- destruct (has (key_of p) sv); eapply Hgen; eauto.
-           intros it Hi. rewrite forwarded_app in Hi. apply in_app_or in Hi. destruct Hi as [?|Hi]; [left; assumption|].
-           cbn in Hi. destruct Hi as [<-|[]]. right. exists p. split; reflexivity.
-        -- injection H as <- <- <- <- <-. split; intros it Hi; left; exact Hi.
-      * eapply Hgen; eauto.
-    + destruct (ps_on c && is_stmt) eqn:Eps.
-      * apply andb_true_iff in Eps. destruct Eps as [Eps _].
-        destruct (lookup name pm) as [p|].
-        -- destruct (has (key_of p) sv); eapply Hgen; eauto.
-           intros it Hi. rewrite forwarded_app in Hi. apply in_app_or in Hi. destruct Hi as [?|Hi]; [left; assumption|].
-           cbn in Hi. destruct Hi as [<-|[]]. right. exists p. split; [reflexivity|exact Eps].
-        -- injection H as <- <- <- <- <-. split; intros it Hi; left; exact Hi.
-      * eapply Hgen; eauto.
+    + destruct (ps_on c); [destruct (has key sv)|]; eapply Hgen; eauto.
+    + destruct meta as [p|]; [destruct (has (key_of p) sv)|]; eapply Hgen; eauto.
+    + destruct meta as [p|]; [destruct (has (key_of p) sv)|]; eapply Hgen; eauto.
     + eapply Hgen; eauto.
     + destruct (ps_on c && is_stmt && negb (Nat.eqb name 0)); eapply Hgen; eauto.
     + eapply Hgen; eauto.
@@ -524,7 +610,7 @@ Proof.
 Qed.
 
 Lemma after_server_bufs c s tx s' ev : after_server c s tx = (s', ev) ->
-  ebuf s' = ebuf s /\ pout s' = pout s /\ forwarded ev = [].
+  ebuf s' = ebuf s /\ pout s' = pout s /\ ps s' = ps s /\ rej s' = rej s /\ forwarded ev = [].
 Proof.
   unfold after_server. destruct (negb tx && txn_mode c); intros H; injection H as <- <-; repeat split.
 Qed.
@@ -534,36 +620,37 @@ Proof.
   intros H. destruct m; try (apply buffer_msg_ok; [exact H|exact I]).
   - (* MQ *) cbn [step_inner] in H. destruct (eff c parsed v) eqn:Ee.
     + destruct (after_server c s tx_after) as [s2 e2] eqn:Ea. injection H as <- <-.
-      destruct (after_server_bufs _ _ _ _ _ Ea) as (E1 & E2 & E3). split.
+      destruct (after_server_bufs _ _ _ _ _ Ea) as (E1 & E2 & _ & _ & E3). split.
       * cbn [forwarded]. rewrite E3. intros it [<-|[]]. left. split; [reflexivity|]. cbn. rewrite Ee. reflexivity.
-      * left. split; assumption.
+      * left. unfold bmsgs. rewrite E1. split; [reflexivity|assumption].
     + injection H as <- <-. split; [intros it []|left; split; reflexivity].
     + injection H as <- <-. split; [intros it []|left; split; reflexivity].
   - (* MS *) cbn [step_inner] in H. destruct (pout s) eqn:Ep.
-    + destruct (drain c (ebuf s) (ps s) (srv s) [] []) as [[[[early acc] pm] sv] ok] eqn:D.
-      destruct (drain_spec _ _ _ _ _ _ _ _ _ _ _ D) as [A B].
-      assert (Hearly: forall it, In it (forwarded early) -> exists p, it = FParse p /\ ps_on c = true).
+    + destruct (drain c (ebuf s) (srv s) [] []) as [[early acc] sv] eqn:D.
+      destruct (drain_spec _ _ _ _ _ _ _ _ D) as [A B].
+      assert (Hearly: forall it, In it (forwarded early) -> exists m' p, it = FParse p /\ In (m', Some p) (ebuf s)).
       { intros it Hi. destruct (B it Hi) as [[]|Hp]. exact Hp. }
-      assert (Hacc: forall it, In it acc -> exists m', it = FMsg m' /\ In m' (ebuf s)).
+      assert (Hacc: forall it, In it acc -> exists m', it = FMsg m' /\ In m' (bmsgs s)).
       { intros it Hi. destruct (A it Hi) as [[]|Hp]. exact Hp. }
-      destruct ok; cbn [negb] in H.
-      * destruct acc as [|a0 acc0].
-        -- destruct (after_server c _ _) as [s2 e2] eqn:Ea. injection H as <- <-.
-           destruct (after_server_bufs _ _ _ _ _ Ea) as (E1 & E2 & E3). split.
-           ++ intros it Hi. rewrite forwarded_app, E3, app_nil_r in Hi. right; right. apply Hearly. exact Hi.
-           ++ right; right; right. cbn in E1, E2. rewrite E1, E2, Ep. repeat split.
-        -- destruct (after_server c _ _) as [s2 e2] eqn:Ea. injection H as <- <-.
-           destruct (after_server_bufs _ _ _ _ _ Ea) as (E1 & E2 & E3). split.
-           ++ intros it Hi. rewrite forwarded_app in Hi. apply in_app_or in Hi. destruct Hi as [Hi|Hi].
-              ** right; right. apply Hearly. exact Hi.
-              ** cbn [forwarded] in Hi. rewrite E3, app_nil_r in Hi. rewrite app_comm_cons in Hi.
-                 apply in_app_or in Hi. destruct Hi as [Hi|[<-|[]]].
-                 --- right; left. destruct (Hacc it Hi) as (m' & -> & Hm'). exists m'. repeat split; [exact Hm'|rewrite Ep; reflexivity].
-                 --- left. split; reflexivity.
-           ++ right; right; right. cbn in E1, E2. rewrite E1, E2, Ep. repeat split.
-      * injection H as <- <-. split.
-        -- intros it Hi. rewrite forwarded_app in Hi. cbn [forwarded] in Hi. rewrite app_nil_r in Hi. right; right. apply Hearly. exact Hi.
-        -- right; right; right. cbn. rewrite Ep. repeat split.
+      assert (Hfin: forall s2 e2 txx, after_server c (drained s sv) txx = (s2, e2) ->
+                 bmsgs s2 = [] /\ pout s2 = pout s /\ is_allow (pout s) = true).
+      { intros s2 e2 txx Ea. destruct (after_server_bufs _ _ _ _ _ Ea) as (E1 & E2 & _). unfold bmsgs. rewrite E1, E2.
+        cbn. rewrite Ep. repeat split. }
+      destruct acc as [|a0 acc0].
+      * destruct (after_server c _ _) as [s2 e2] eqn:Ea. injection H as <- <-.
+        destruct (after_server_bufs _ _ _ _ _ Ea) as (_ & _ & _ & _ & E3). split.
+        -- intros it Hi. rewrite forwarded_app, E3, app_nil_r in Hi. right; right.
+           destruct (Hearly it Hi) as (m' & p & -> & Hp). exists m', p. repeat split; [exact Hp|rewrite Ep; reflexivity].
+        -- right; right; right. exact (Hfin _ _ _ Ea).
+      * destruct (after_server c _ _) as [s2 e2] eqn:Ea. injection H as <- <-.
+        destruct (after_server_bufs _ _ _ _ _ Ea) as (_ & _ & _ & _ & E3). split.
+        -- intros it Hi. rewrite forwarded_app in Hi. apply in_app_or in Hi. destruct Hi as [Hi|Hi].
+           ++ right; right. destruct (Hearly it Hi) as (m' & p & -> & Hp). exists m', p. repeat split; [exact Hp|rewrite Ep; reflexivity].
+           ++ cbn [forwarded] in Hi. rewrite E3, app_nil_r in Hi. rewrite app_comm_cons in Hi.
+              apply in_app_or in Hi. destruct Hi as [Hi|[<-|[]]].
+              ** right; left. destruct (Hacc it Hi) as (m' & -> & Hm'). exists m'. repeat split; [exact Hm'|rewrite Ep; reflexivity].
+              ** left. split; reflexivity.
+        -- right; right; right. exact (Hfin _ _ _ Ea).
     + injection H as <- <-. split; [intros it []|]. right; right; left. split; reflexivity.
     + injection H as <- <-. split; [intros it []|]. right; right; left. split; reflexivity.
   - (* MH *) cbn [step_inner] in H. injection H as <- <-. split; [intros it []|left; split; reflexivity].
@@ -602,91 +689,195 @@ Proof.
       intros H; injection H as <- <-; (split; [intros it []|left; split; reflexivity]).
 Qed.
 
-(** Invariant: a rejected Parse sitting in the buffer keeps a non-Allow verdict pending. *)
+(** Invariant.  A rejected Parse sitting in the buffer keeps a non-Allow verdict pending;
+    so does a Bind/Describe that resolved to a rejected Parse; a rejected Parse in the
+    client's map has its name on the rejected list; and the list is non-empty only while a
+    verdict is pending. *)
 Definition Inv (c : cfg) (s : state) : Prop :=
-  forall m, In m (ebuf s) -> bad_msg c m = true -> is_allow (pout s) = false.
-
-Lemma bad_pbuf c m : bad_msg c m = true ->
-  match m with MQ _ _ _ _ _ => True | _ => is_allow (pbuf c m) = false end.
-Proof. destruct m; cbn; try discriminate; [trivial|]. intros H. apply negb_true_iff in H. exact H. Qed.
-
-Lemma Inv_step c s m s' ev : ok_step c s m s' ev ->
-  match m with MQ _ _ _ _ _ => ebuf s' <> ebuf s ++ [m] | _ => True end -> Inv c s -> Inv c s'.
-Proof.
-  intros [_ Hb] Hq I0. unfold Inv in *. destruct Hb as [[E1 E2]|[[E1 E2]|[[E1 E2]|[E1 _]]]].
-  - rewrite E1, E2. exact I0.
-  - rewrite E1. intros x Hx Hbad. apply in_app_or in Hx. destruct (is_allow (pout s)) eqn:Ea.
-    + destruct Hx as [Hx|[<-|[]]].
-      * pose proof (I0 x Hx Hbad) as Hc. congruence.
-      * rewrite E2. pose proof (bad_pbuf c m Hbad) as Hp. destruct m; try exact Hp. exfalso. apply Hq. exact E1.
-    + rewrite E2. exact Ea.
-  - rewrite E1. intros x [].
-  - rewrite E1. intros x [].
-Qed.
-
-Lemma step_no_q_buffered c s m s' ev : step c s m = (s', ev) ->
-  match m with MQ _ _ _ _ _ => ebuf s' <> ebuf s ++ [m] | _ => True end.
-Proof.
-  destruct m; try exact (fun _ => I). intros H E.
-  assert (L: forall l : list msg, forall x, l <> l ++ [x]).
-  { intros l x Hl. apply (f_equal (@length _)) in Hl. rewrite app_length in Hl. cbn in Hl. lia. }
-  assert (Hq: ebuf s' = ebuf s \/ ebuf s' = []).
-  { unfold step in H. destruct (dead s); [injection H as <- <-; left; reflexivity|].
-    assert (Hi: forall s0 s1 e1, step_inner c s0 (MQ id parsed v pool_ok tx_after) = (s1, e1) -> ebuf s1 = ebuf s0).
-    { intros s0 s1 e1 Hs. cbn [step_inner] in Hs. destruct (eff c parsed v).
-      - destruct (after_server c s0 tx_after) as [s2 e2] eqn:Ea. injection Hs as <- <-.
-        destruct (after_server_bufs _ _ _ _ _ Ea) as (E1 & _). exact E1.
-      - injection Hs as <- <-. reflexivity.
-      - injection Hs as <- <-. reflexivity. }
-    destruct (held s); [left; eapply Hi; exact H|].
-    cbn [step_outer] in H. destruct (eff c parsed v); try (injection H as <- <-; left; reflexivity).
-    assert (Hc: forall s2 e2, outer_checkout c s (MQ id parsed v pool_ok tx_after) = (s2, e2) -> ebuf s2 = ebuf s).
-    { intros s2 e2 Hr. unfold outer_checkout in Hr. cbn [pool_ok_of is_sync] in Hr. destruct pool_ok.
-      - destruct (step_inner c (set_held s true false) _) as [s3 e3] eqn:Es. injection Hr as <- <-. apply Hi in Es. exact Es.
-      - injection Hr as <- <-. reflexivity. }
-    unfold outer_rest in H. cbn [is_sync] in H. destruct (pout s).
-    - left. eapply Hc. exact H.
-    - injection H as <- <-. right. reflexivity.
-    - left. eapply Hc. exact H. }
-  destruct Hq as [Hq|Hq]; rewrite Hq in E.
-  - exact (L _ _ E).
-  - destruct (ebuf s); discriminate.
-Qed.
+  (forall m o, In (m, o) (ebuf s) -> bad_msg c m = true -> is_allow (pout s) = false) /\
+  (forall m p, In (m, Some p) (ebuf s) -> bad_msg c p = true -> is_allow (pout s) = false) /\
+  (forall n p, In (n, p) (ps s) -> bad_msg c p = true -> In n (rej s)) /\
+  (rej s <> [] -> is_allow (pout s) = false).
 
 Lemma Inv_init c : Inv c init.
-Proof. intros m []. Qed.
+Proof. repeat split; cbn; intros; try contradiction. Qed.
 
-(** MAIN: whatever the client sends, from any state satisfying the invariant, no client
-    message that the plugins rejected is ever written to a server; a rejected text can
-    only reach a server as a Parse re-sent from the prepared-statement map. *)
+Lemma Inv_same c s s' : ebuf s' = ebuf s -> pout s' = pout s -> ps s' = ps s -> rej s' = rej s -> Inv c s -> Inv c s'.
+Proof. unfold Inv. intros -> -> -> ->. exact (fun H => H). Qed.
+
+Lemma has_In k l : has k l = true <-> In k l.
+Proof.
+  unfold has. rewrite existsb_exists. split.
+  - intros (x & Hx & E). apply Nat.eqb_eq in E. subst. exact Hx.
+  - intros H. exists k. split; [exact H|apply Nat.eqb_refl].
+Qed.
+
+Lemma Inv_reset c s : Inv c s -> Inv c (reset s).
+Proof.
+  intros (_ & _ & I3 & _). unfold Inv, reset. cbn [ebuf pout ps rej]. repeat split; try (intros; contradiction).
+  intros n p Hin Hb. unfold forget in Hin. apply filter_In in Hin. destruct Hin as [Hin Hf]. cbn [fst] in Hf.
+  apply negb_true_iff in Hf. pose proof (I3 n p Hin Hb) as Hr. apply has_In in Hr. congruence.
+Qed.
+
+Lemma Inv_consume c s : Inv c s -> Inv c (consume s).
+Proof.
+  intros I0. apply Inv_reset in I0. destruct I0 as (I1 & I2 & I3 & I4).
+  unfold consume, Inv. cbn [set_pout ebuf pout ps rej reset] in *. repeat split; try (intros; contradiction). exact I3.
+Qed.
+
+Lemma Inv_drained c s sv : Inv c s -> Inv c (drained s sv).
+Proof.
+  intros (_ & _ & I3 & I4). unfold Inv, drained. cbn [ebuf pout ps rej]. repeat split; try (intros; contradiction); assumption.
+Qed.
+
+Lemma lookup_In n l p : lookup n l = Some p -> In (n, p) l.
+Proof.
+  induction l as [|[k m] r IH]; [discriminate|]. cbn [lookup]. destruct (Nat.eqb_spec k n) as [->|Hne].
+  - intros H. injection H as ->. left. reflexivity.
+  - intros H. right. apply IH. exact H.
+Qed.
+
+Lemma Inv_push_plain c s m : Inv c s -> bad_msg c m = false -> Inv c (push s (m, None)).
+Proof.
+  intros (I1 & I2 & I3 & I4) Hb. unfold Inv, push. cbn [ebuf pout ps rej]. repeat split; try assumption.
+  - intros x o Hin Hx. apply in_app_or in Hin. destruct Hin as [Hin|[E|[]]]; [eapply I1; eassumption|].
+    injection E as <- <-. congruence.
+  - intros x p Hin Hx. apply in_app_or in Hin. destruct Hin as [Hin|[E|[]]]; [eapply I2; eassumption|discriminate].
+Qed.
+
+Lemma Inv_push_resolved c s m p n : Inv c s -> bad_msg c m = false -> In (n, p) (ps s) -> Inv c (push s (m, Some p)).
+Proof.
+  intros (I1 & I2 & I3 & I4) Hb Hp. unfold Inv, push. cbn [ebuf pout ps rej]. repeat split; try assumption.
+  - intros x o Hin Hx. apply in_app_or in Hin. destruct Hin as [Hin|[E|[]]]; [eapply I1; eassumption|].
+    injection E as <- <-. congruence.
+  - intros x q Hin Hx. apply in_app_or in Hin. destruct Hin as [Hin|[E|[]]]; [eapply I2; eassumption|].
+    injection E as <- <-. apply I4. pose proof (I3 n p Hp Hx) as Hr. intros E. rewrite E in Hr. destruct Hr.
+Qed.
+
+Lemma Inv_buffer c s m s' ev : Inv c s -> buffer_msg c s m = (s', ev) -> Inv c s'.
+Proof.
+  intros I0 H. destruct m; cbn [buffer_msg] in H; try (injection H as <- <-; exact I0).
+  - (* MP *) injection H as <- <-. destruct I0 as (I1 & I2 & I3 & I4).
+    set (m := MP id name key parsed v).
+    assert (Hbad: bad_msg c m = negb (is_allow (eff c parsed v))) by reflexivity.
+    (* the verdict after this Parse *)
+    set (s1 := if parser_on c && parsed then if is_allow (pout s) then set_pout s (plug c v) else s else s).
+    assert (E1: ebuf s1 = ebuf s /\ ps s1 = ps s /\ rej s1 = rej s).
+    { subst s1. destruct (parser_on c && parsed); [destruct (is_allow (pout s))|]; repeat split. }
+    destruct E1 as (Eb & Ep & Er).
+    assert (Hp1: is_allow (pout s) = false -> pout s1 = pout s).
+    { intros Ha. subst s1. destruct (parser_on c && parsed); [rewrite Ha|]; reflexivity. }
+    assert (Hp2: is_allow (pout s) = true -> pout s1 = eff c parsed v).
+    { intros Ha. subst s1. unfold eff. destruct (parser_on c && parsed); [rewrite Ha; reflexivity|].
+      apply is_allow_true. exact Ha. }
+    assert (Hkeep: is_allow (pout s) = false -> is_allow (pout s1) = false) by (intros Ha; rewrite Hp1; assumption).
+    assert (Hnew: bad_msg c m = true -> is_allow (pout s1) = false).
+    { intros Hb. destruct (is_allow (pout s)) eqn:Ea; [|apply Hkeep; reflexivity].
+      rewrite Hp2 by reflexivity. rewrite Hbad in Hb. apply negb_true_iff in Hb. exact Hb. }
+    change (negb (is_allow (eff c parsed v))) with (bad_msg c m) in *.
+    match goal with |- Inv c ?x => set (s' := x) end.
+    assert (F1: ebuf s' = ebuf s ++ [(m, None)]).
+    { subst s'. destruct (ps_on c); [destruct (bad_msg c m)|]; cbn; rewrite Eb; reflexivity. }
+    assert (F2: pout s' = pout s1).
+    { subst s'. destruct (ps_on c); [destruct (bad_msg c m)|]; reflexivity. }
+    assert (F3: ps s' = if ps_on c then (name, m) :: ps s else ps s).
+    { subst s'. destruct (ps_on c); [destruct (bad_msg c m)|]; cbn; rewrite Ep; reflexivity. }
+    assert (F4: rej s' = if ps_on c then (if bad_msg c m then name :: rej s else rej s) else rej s).
+    { subst s'. destruct (ps_on c); [destruct (bad_msg c m)|]; cbn; rewrite Er; reflexivity. }
+    unfold Inv. rewrite F1, F2, F3, F4. clearbody s' s1. repeat split.
+    + intros x o Hin Hx. apply in_app_or in Hin. destruct Hin as [Hin|[E|[]]].
+      * apply Hkeep. eapply I1; eassumption.
+      * injection E as <- <-. apply Hnew. exact Hx.
+    + intros x p Hin Hx. apply in_app_or in Hin. destruct Hin as [Hin|[E|[]]]; [|discriminate].
+      apply Hkeep. eapply I2; eassumption.
+    + intros n p Hin Hx. destruct (ps_on c); [|eapply I3; eassumption].
+      destruct Hin as [E|Hin].
+      * injection E as <- <-. rewrite Hx. left. reflexivity.
+      * destruct (bad_msg c m); [right|]; eapply I3; eassumption.
+    + intros Hr. destruct (ps_on c); [|apply Hkeep; apply I4; exact Hr].
+      destruct (bad_msg c m) eqn:Eb2; [apply Hnew; reflexivity|apply Hkeep; apply I4; exact Hr].
+  - (* MB *) destruct (ps_on c).
+    + destruct (lookup name (ps s)) as [p|] eqn:El; injection H as <- <-.
+      * eapply Inv_push_resolved; [exact I0|reflexivity|apply lookup_In; exact El].
+      * eapply Inv_same; [..|exact I0]; reflexivity.
+    + injection H as <- <-. apply Inv_push_plain; [exact I0|reflexivity].
+  - (* MD *) destruct (ps_on c && is_stmt).
+    + destruct (lookup name (ps s)) as [p|] eqn:El; injection H as <- <-.
+      * eapply Inv_push_resolved; [exact I0|reflexivity|apply lookup_In; exact El].
+      * eapply Inv_same; [..|exact I0]; reflexivity.
+    + injection H as <- <-. apply Inv_push_plain; [exact I0|reflexivity].
+  - (* ME *) injection H as <- <-. apply Inv_push_plain; [exact I0|reflexivity].
+  - (* MC *) destruct (ps_on c && is_stmt && negb (Nat.eqb name 0)); injection H as <- <-.
+    + apply Inv_push_plain; [|reflexivity]. destruct I0 as (I1 & I2 & I3 & I4).
+      unfold Inv, set_ps. cbn [ebuf pout ps rej]. repeat split; try assumption.
+      intros n p Hin Hx. unfold remove_name in Hin. apply filter_In in Hin. destruct Hin as [Hin _]. eapply I3; eassumption.
+    + apply Inv_push_plain; [exact I0|reflexivity].
+Qed.
+
+Lemma Inv_after c s tx s' ev : after_server c s tx = (s', ev) -> Inv c s -> Inv c s'.
+Proof.
+  intros Ea. destruct (after_server_bufs _ _ _ _ _ Ea) as (E1 & E2 & E3 & E4 & _). apply Inv_same; assumption.
+Qed.
+
+Lemma Inv_inner c s m s' ev : Inv c s -> step_inner c s m = (s', ev) -> Inv c s'.
+Proof.
+  intros I0 H. destruct m; try (eapply Inv_buffer; [exact I0|exact H]); cbn [step_inner] in H.
+  - destruct (eff c parsed v); try (injection H as <- <-; exact I0).
+    destruct (after_server c s tx_after) as [s2 e2] eqn:Ea. injection H as <- <-. eapply Inv_after; eassumption.
+  - destruct (pout s); try (injection H as <- <-; apply Inv_consume; exact I0).
+    destruct (drain c (ebuf s) (srv s) [] []) as [[early acc] sv].
+    destruct acc; destruct (after_server c _ _) as [s2 e2] eqn:Ea; injection H as <- <-;
+      (eapply Inv_after; [exact Ea|apply Inv_drained; exact I0]).
+  - injection H as <- <-. exact I0.
+Qed.
+
+Lemma Inv_held c s h tx : Inv c s -> Inv c (set_held s h tx).
+Proof. apply Inv_same; reflexivity. Qed.
+
+Lemma Inv_step c s m s' ev : Inv c s -> step c s m = (s', ev) -> Inv c s'.
+Proof.
+  intros I0 H. unfold step in H. destruct (dead s); [injection H as <- <-; exact I0|].
+  destruct (held s); [eapply Inv_inner; eassumption|].
+  assert (Hco: forall s2 e2, outer_checkout c s m = (s2, e2) -> Inv c s2).
+  { intros s2 e2 Hc. unfold outer_checkout in Hc. destruct (pool_ok_of m).
+    - destruct (step_inner c (set_held s true false) m) as [s3 e3] eqn:Es. injection Hc as <- <-.
+      eapply Inv_inner; [apply Inv_held; exact I0|exact Es].
+    - injection Hc as <- <-. destruct (is_sync m); [apply Inv_reset|]; exact I0. }
+  assert (Hor: forall s2 e2, outer_rest c s m = (s2, e2) -> Inv c s2).
+  { intros s2 e2 Hr. unfold outer_rest in Hr. destruct (pout s).
+    - eapply Hco; exact Hr.
+    - injection Hr as <- <-. apply Inv_consume. exact I0.
+    - destruct (is_sync m); [injection Hr as <- <-; apply Inv_consume; exact I0|eapply Hco; exact Hr]. }
+  destruct m; cbn [step_outer] in H; try (eapply Hor; exact H); try (eapply Inv_buffer; [exact I0|exact H]).
+  destruct (eff c parsed v); try (injection H as <- <-; exact I0). eapply Hor; exact H.
+Qed.
+
+Lemma in_bmsgs s m : In m (bmsgs s) -> exists o, In (m, o) (ebuf s).
+Proof.
+  unfold bmsgs. intros H. apply in_map_iff in H. destruct H as ([x o] & E & Hin). cbn in E. subst. exists o. exact Hin.
+Qed.
+
+(** MAIN: whatever the client sends, from any state satisfying the invariant, nothing the
+    plugins rejected is ever written to a server - neither the client's own message nor a
+    Parse that pgcat re-sends from the client's prepared-statement map. *)
 Lemma enforced_from c ops : forall s, Inv c s ->
-  forall it, In it (forwarded (snd (run c s ops))) ->
-    match it with
-    | FMsg m => bad_msg c m = false
-    | FParse _ => ps_on c = true
-    end.
+  forall it, In it (forwarded (snd (run c s ops))) -> bad_item c it = false.
 Proof.
   induction ops as [|m r IH]; intros s I0 it Hi; [destruct Hi|].
   cbn [run] in Hi. destruct (step c s m) as [s1 e1] eqn:Es. destruct (run c s1 r) as [s2 e2] eqn:Er.
   cbn [snd] in Hi. rewrite forwarded_app in Hi. apply in_app_or in Hi.
-  pose proof (step_ok _ _ _ _ _ Es) as Hok.
   destruct Hi as [Hi|Hi].
-  - destruct Hok as [Hf _]. destruct (Hf it Hi) as [[-> Hb]|[(m' & -> & Hm' & Ha)|(p & -> & Hp)]].
+  - destruct (step_ok _ _ _ _ _ Es) as [Hf _]. destruct I0 as (I1 & I2 & _ & _).
+    destruct (Hf it Hi) as [[-> Hb]|[(m' & -> & Hm' & Ha)|(m' & p & -> & Hp & Ha)]]; cbn [bad_item].
     + exact Hb.
-    + destruct (bad_msg c m') eqn:Eb; [|reflexivity]. rewrite (I0 m' Hm' Eb) in Ha. discriminate.
-    + exact Hp.
-  - apply (IH s1); [|rewrite Er; exact Hi].
-    eapply Inv_step; [exact Hok| |exact I0]. eapply step_no_q_buffered. exact Es.
+    + destruct (bad_msg c m') eqn:Eb; [|reflexivity]. destruct (in_bmsgs _ _ Hm') as (o & Ho).
+      rewrite (I1 m' o Ho Eb) in Ha. discriminate.
+    + destruct (bad_msg c p) eqn:Eb; [|reflexivity]. rewrite (I2 m' p Hp Eb) in Ha. discriminate.
+  - apply (IH s1); [|rewrite Er; exact Hi]. eapply Inv_step; eassumption.
 Qed.
 
-Lemma enforced c ops it : In it (forwarded (trace c ops)) ->
-  match it with FMsg m => bad_msg c m = false | FParse _ => ps_on c = true end.
+Lemma enforced c ops it : In it (forwarded (trace c ops)) -> bad_item c it = false.
 Proof. apply enforced_from. apply Inv_init. Qed.
-
-Lemma enforced_no_ps c ops it : ps_on c = false -> In it (forwarded (trace c ops)) -> bad_item c it = false.
-Proof.
-  intros Hps Hi. pose proof (enforced c ops it Hi) as H. destruct it; cbn [bad_item]; [exact H|congruence].
-Qed.
 
 (** A batch whose verdict is pending as Deny/Intercept is dropped as a whole: none of the
     messages buffered so far is ever forwarded, whatever follows (message ids of the
@@ -694,7 +885,7 @@ Qed.
 Definition ids (l : list msg) : list nat := map msg_id l.
 
 Lemma batch_dropped_gen c ops : forall s (I : list nat),
-  (is_allow (pout s) = false \/ (forall m, In m (ebuf s) -> ~ In (msg_id m) I)) ->
+  (is_allow (pout s) = false \/ (forall m, In m (bmsgs s) -> ~ In (msg_id m) I)) ->
   (forall m, In m ops -> ~ In (msg_id m) I) ->
   forall m, In (FMsg m) (forwarded (snd (run c s ops))) -> ~ In (msg_id m) I.
 Proof.
@@ -703,7 +894,7 @@ Proof.
   cbn [snd] in Hi. rewrite forwarded_app in Hi. apply in_app_or in Hi.
   destruct (step_ok _ _ _ _ _ Es) as [Hf Hb].
   destruct Hi as [Hi|Hi].
-  - destruct (Hf _ Hi) as [[E _]|[(m' & E & Hm' & Ha)|(p & E & _)]].
+  - destruct (Hf _ Hi) as [[E _]|[(m' & E & Hm' & Ha)|(m' & p & E & _)]].
     + injection E as ->. apply Hfresh. left. reflexivity.
     + injection E as ->. destruct H0 as [H0|H0]; [rewrite H0 in Ha; discriminate|]. apply H0. exact Hm'.
     + discriminate.
@@ -721,8 +912,8 @@ Qed.
 
 Lemma batch_dropped c s ops m :
   is_allow (pout s) = false ->
-  (forall x, In x ops -> ~ In (msg_id x) (ids (ebuf s))) ->
-  In (FMsg m) (forwarded (snd (run c s ops))) -> ~ In (msg_id m) (ids (ebuf s)).
+  (forall x, In x ops -> ~ In (msg_id x) (ids (bmsgs s))) ->
+  In (FMsg m) (forwarded (snd (run c s ops))) -> ~ In (msg_id m) (ids (bmsgs s)).
 Proof. intros Hp Hf. apply batch_dropped_gen; [left; exact Hp|exact Hf]. Qed.
 
 (** A rejected Q is answered at once, whatever the state, and changes nothing. *)
@@ -735,8 +926,8 @@ Proof.
     destruct (eff c parsed v); try reflexivity; contradiction.
 Qed.
 
-(** A pending Deny is answered by the next Sync, in either loop, and the batch is gone;
-    a pending Intercept likewise when a server can be checked out. *)
+(** A pending Deny / Intercept is answered by the next Sync, in either loop, without a
+    checkout, and the batch is gone - together with the names its rejected Parses gave. *)
 Lemma sync_answers_deny c s id po tx t :
   dead s = false -> pout s = Deny t ->
   step c s (MS id po tx) = (consume s, [EvErr (EPlugin t)]).
@@ -751,9 +942,31 @@ Proof.
   intros Hd Hp. unfold step. rewrite Hd. destruct (held s); cbn [step_inner step_outer]; unfold outer_rest; rewrite Hp; reflexivity.
 Qed.
 
+(** After the batch is dropped no rejected Parse is left in the client's map: a later Bind or
+    Describe of such a name is answered "does not exist". *)
+Lemma consumed_map_clean c s : Inv c s -> forall n p, In (n, p) (ps (consume s)) -> bad_msg c p = false.
+Proof.
+  intros I0 n p Hin. apply Inv_consume in I0. destruct I0 as (_ & _ & I3 & _).
+  destruct (bad_msg c p) eqn:Eb; [|reflexivity]. destruct (I3 n p Hin Eb).
+Qed.
+
+Lemma Inv_run c ops : forall s, Inv c s -> Inv c (fst (run c s ops)).
+Proof.
+  induction ops as [|m r IH]; intros s I0; [exact I0|].
+  cbn [run]. destruct (step c s m) as [s1 e1] eqn:Es. destruct (run c s1 r) as [s2 e2] eqn:Er.
+  cbn [fst]. change s2 with (fst (s2, e2)). rewrite <- Er. apply IH. eapply Inv_step; eassumption.
+Qed.
+
+Lemma names_forgotten c ops n p :
+  In (n, p) (ps (consume (fst (run c init ops)))) -> bad_msg c p = false.
+Proof. apply consumed_map_clean. apply Inv_run. apply Inv_init. Qed.
+
 (** No stale verdict: a non-Allow verdict is pending only while the batch that earned it
     is still buffered (whatever happens to checkouts). *)
 Definition fresh (s : state) : Prop := is_allow (pout s) = false -> ebuf s <> [].
+
+Lemma bmsgs_nil s : bmsgs s = [] <-> ebuf s = [].
+Proof. unfold bmsgs. destruct (ebuf s); cbn; split; intros H; try reflexivity; discriminate. Qed.
 
 Lemma no_stale_from c ops : forall s, fresh s -> fresh (fst (run c s ops)).
 Proof.
@@ -762,8 +975,8 @@ Proof.
   cbn [fst]. change s2 with (fst (s2, e2)). rewrite <- Er. apply IH.
   destruct (step_ok _ _ _ _ _ Es) as [_ Hb]. unfold fresh in *.
   destruct Hb as [[E1 E2]|[[E1 E2]|[[E1 E2]|(E1 & E2 & E3)]]].
-  - rewrite E1, E2. exact F.
-  - rewrite E1. intros _. destruct (ebuf s); discriminate.
+  - rewrite E2. intros Ha Hn. apply (F Ha). apply bmsgs_nil. rewrite <- E1. apply bmsgs_nil. exact Hn.
+  - intros _ Hn. apply bmsgs_nil in Hn. rewrite E1 in Hn. destruct (bmsgs s); discriminate.
   - rewrite E2. discriminate.
   - rewrite E2, E3. discriminate.
 Qed.
@@ -790,19 +1003,17 @@ Notation quiet ev := (forallb (fun e => negb (plugin_event e)) ev = true).
 Lemma after_server_quiet c s tx s' ev : after_server c s tx = (s', ev) -> pout s' = pout s /\ quiet ev.
 Proof. unfold after_server. destruct (negb tx && txn_mode c); intros H; injection H as <- <-; split; reflexivity. Qed.
 
-Lemma drain_quiet c buf : forall pm sv early acc early' acc' pm' sv' ok,
-  drain c buf pm sv early acc = (early', acc', pm', sv', ok) -> quiet early -> quiet early'.
+Lemma drain_quiet c buf : forall sv early acc early' acc' sv',
+  drain c buf sv early acc = (early', acc', sv') -> quiet early -> quiet early'.
 Proof.
-  induction buf as [|m r IH]; intros pm sv early acc early' acc' pm' sv' ok H Q.
-  - cbn [drain] in H. injection H as <- <- <- <- <-. exact Q.
+  induction buf as [|[m meta] r IH]; intros sv early acc early' acc' sv' H Q.
+  - cbn [drain] in H. injection H as <- <- <-. exact Q.
   - assert (Q2: forall p, quiet (early ++ [EvFwd [FParse p]])) by (intros p; rewrite no_plugin_app, Q; reflexivity).
-    cbn [drain] in H. destruct m;
+    cbn [drain] in H. destruct m; try destruct meta as [p|];
       repeat match type of H with
              | context [if ?b then _ else _] => destruct b
-             | context [match lookup ?n ?l with Some _ => _ | None => _ end] => destruct (lookup n l)
              end;
-      try (eapply IH; [exact H|]; first [exact Q|apply Q2]);
-      injection H as <- <- <- <- <-; exact Q.
+      (eapply IH; [exact H|]; first [exact Q|apply Q2]).
 Qed.
 
 Lemma disabled_step_inner c s m s' ev : disabled c -> pout s = Allow -> step_inner c s m = (s', ev) ->
@@ -814,21 +1025,20 @@ Proof.
   - assert (Hs1: pout (if parser_on c && parsed then if is_allow (pout s) then set_pout s (plug c v) else s else s) = Allow).
     { destruct (parser_on c && parsed) eqn:Epp; [|exact Hp]. rewrite Hp. cbn [is_allow set_pout pout].
       unfold plug. destruct Hd as [Hd|Hd]; [rewrite Hd; reflexivity|]. rewrite Hd in Epp. discriminate. }
-    destruct (ps_on c); injection H as <- <-; split; try reflexivity; exact Hs1.
+    injection H as <- <-. split; [|reflexivity].
+    destruct (ps_on c); [destruct (negb (is_allow (eff c parsed v)))|]; exact Hs1.
   - destruct (ps_on c); [destruct (lookup name (ps s))|]; injection H as <- <-; split; try reflexivity; exact Hp.
   - destruct (ps_on c && is_stmt); [destruct (lookup name (ps s))|]; injection H as <- <-; split; try reflexivity; exact Hp.
   - injection H as <- <-; split; [exact Hp|reflexivity].
-  - injection H as <- <-; split; [exact Hp|reflexivity].
-  - rewrite Hp in H. destruct (drain c (ebuf s) (ps s) (srv s) [] []) as [[[[early acc] pm] sv] ok] eqn:D.
-    pose proof (drain_quiet _ _ _ _ _ _ _ _ _ _ _ D eq_refl) as Qe.
-    destruct ok; cbn [negb] in H.
-    + destruct acc.
-      * destruct (after_server c _ _) as [s2 e2] eqn:Ea. injection H as <- <-.
-        destruct (after_server_quiet _ _ _ _ _ Ea) as [E Q]. split; [rewrite E; exact Hp|]. rewrite no_plugin_app, Qe, Q. reflexivity.
-      * destruct (after_server c _ _) as [s2 e2] eqn:Ea. injection H as <- <-.
-        destruct (after_server_quiet _ _ _ _ _ Ea) as [E Q]. split; [rewrite E; exact Hp|].
-        rewrite no_plugin_app, Qe. cbn [forallb plugin_event negb andb]. exact Q.
-    + injection H as <- <-. split; [exact Hp|]. rewrite no_plugin_app, Qe. reflexivity.
+  - destruct (ps_on c && is_stmt && negb (Nat.eqb name 0)); injection H as <- <-; split; try reflexivity; exact Hp.
+  - rewrite Hp in H. destruct (drain c (ebuf s) (srv s) [] []) as [[early acc] sv] eqn:D.
+    pose proof (drain_quiet _ _ _ _ _ _ _ _ D eq_refl) as Qe.
+    destruct acc.
+    + destruct (after_server c _ _) as [s2 e2] eqn:Ea. injection H as <- <-.
+      destruct (after_server_quiet _ _ _ _ _ Ea) as [E Q]. split; [rewrite E; exact Hp|]. rewrite no_plugin_app, Qe, Q. reflexivity.
+    + destruct (after_server c _ _) as [s2 e2] eqn:Ea. injection H as <- <-.
+      destruct (after_server_quiet _ _ _ _ _ Ea) as [E Q]. split; [rewrite E; exact Hp|].
+      rewrite no_plugin_app, Qe. cbn [forallb plugin_event negb andb]. exact Q.
   - injection H as <- <-; split; [exact Hp|reflexivity].
 Qed.
 
